@@ -48,6 +48,8 @@ def oracle(a, tree, rng):
             raise
         except KeyError:
             return "two variables share a name at different widths inconsistently"
+        except (OverflowError, ValueError):
+            return "a sub-expression denotes a value wider than the width it reports (reported length %s)" % a.length
         if v[0] != "bv" or v[1] != a.length:
             return "length %s but the denoted value has width %s" % (a.length, v[1] if v[0] == "bv" else v[0])
         if not a.symbolic and not occ:
@@ -70,6 +72,11 @@ def derived(a, rng):
             l = rng.choice(leaves)
             out.append(("replace", claripy.replace(a, l, claripy.BVS("r", l.length, explicit_name=True) + 1)))
             out.append(("replace_const", claripy.replace(a, l, claripy.BVV(rng.getrandbits(l.length), l.length))))
+            # a replacement of another size is refused (or, if ever accepted, must give a well-sized node)
+            try:
+                out.append(("replace_other_size", claripy.replace(a, l, claripy.BVS("rw", l.length + rng.choice([1, 8]), explicit_name=True))))
+            except claripy.errors.ClaripyError:
+                pass
             # substitution below an annotated inner node (the make_like fast path must not keep stale metadata)
             if isinstance(a, claripy.ast.BV) and not a.is_leaf():
                 tagged = a.annotate(claripy.annotation.SimplificationAvoidanceAnnotation())
